@@ -84,7 +84,8 @@ def run(prog, rep, tier='quick', config='default'):
     get_cols = prog.fn(COLS + '::get_csv_cols')
     exp_cols = prog.fn(COLS + '::export_order_non_deprecated_cols')
     writer = prog.fn('portfolio::io::tx_csv::txs_to_csv_table')
-    reader = prog.fn('portfolio::io::tx_csv::csvtx_from_csv_values')
+    from props import anchors
+    reader = anchors.csv_reader(prog) or prog.fn('portfolio::io::tx_csv::csvtx_from_csv_values')
     for n, f in (('CsvCol::get_csv_cols', get_cols), ('CsvCol::export_order_non_deprecated_cols', exp_cols),
                  ('txs_to_csv_table (writer)', writer), ('csvtx_from_csv_values (reader)', reader)):
         rep.anchor(n, f)
